@@ -461,6 +461,7 @@ fn e2e_path(tag: &str) -> String {
         "vtune_grp" => format!("vgrp::{tag}"),
         "vskip_grp" => format!("vsgrp::{tag}"),
         "vgrp_max" => format!("vmgrp::{tag}"),
+        "g_3_2_t12_max0f" => format!("gmax0f::{tag}"),
         _ => tag.to_string(),
     };
     format!("hx_loop_e2e::{rel}")
@@ -538,7 +539,7 @@ fn run_e2e(line: &str) -> String {
     let mut builder_time = String::new();
     for (tok, flag, var) in [("maxs", "--max-time", "DIVAN_MAX_TIME"), ("mins", "--min-time", "DIVAN_MIN_TIME")] {
         if get(tok) != "-" {
-            if get("tvia") == "attr" {
+            if get("tvia") == "attr" || get("tvia") == "seq" {
                 // the limit is written in the benchmark's attribute: nothing to pass
             } else if get("tvia") == "builder" {
                 builder_time.push_str(&format!(";{}={}", if tok == "maxs" { "max_time" } else { "min_time" }, get(tok)));
@@ -555,6 +556,11 @@ fn run_e2e(line: &str) -> String {
         } else {
             cmd.arg("--skip-ext-time");
         }
+    }
+    // `bseq=<call;call;..>` (with `tvia=seq`): a sequence of builder calls as written; `maxs`/`mins` then name the
+    // limits that must result (the last call per field)
+    if get("bseq") != "-" {
+        builder_time = format!("{builder_time};{}", get("bseq"));
     }
     // `bskip=0|1`: `Divan::skip_ext_time(false|true)` by the builder, before (`border=sf`) or after the time limits
     if get("bskip") != "-" {
